@@ -28,6 +28,11 @@ def line(idx, rng, maxn=8, maxlen=10, miri=False):
             for i in range(n + 1):
                 if rng.random() < 0.15:
                     pan.append("%d:%d" % (b, i))
+    if rng.random() < 0.12:
+        # the caller's own call panics with a payload whose destructor panics too, while workers are still busy
+        pan = [p for p in pan if not p.endswith(":0")] + ["%d:0" % b for b, n in enumerate(hist) if rng.random() < 0.5]
+        if any(p.endswith(":0") for p in pan):
+            d["bomb"] = 1
     if pan:
         d["panics"] = ",".join(pan)
     d["reuse"] = rng.choice([0, 1])          # clear and reuse one result vector across broadcasts, as the sample loop does
@@ -35,7 +40,7 @@ def line(idx, rng, maxn=8, maxlen=10, miri=False):
     if r < 0.3 and len(hist) >= 2:
         d["callers"] = rng.choice([2, 2, 3])     # the pool is driven from several caller threads
         d["cmode"] = rng.choice([0, 0, 1])       # one after the other, or concurrently
-    d["dmode"] = rng.choice([0, 0, 1, 2, 3, 3, 4])
+    d["dmode"] = rng.choice([0, 0, 1, 2, 3, 3, 4]) if "bomb" not in d else rng.choice([2, 2, 3, 4])
     d["damount"] = rng.choice([5, 30, 120]) if not miri else rng.choice([1, 3])
     d["fpint"] = rng.choice([0, 20, 50, 80])
     d["fpseed"] = rng.randrange(1 << 30)
